@@ -9,7 +9,8 @@ def concretize(x):
     if n.op=='c': return n.a[0]
     c=core.Ctx.cur
     while True:
-        assert c.check()
+        if not c.check():
+            print('INFEASIBLE at concretize', n.op, n.lo, n.hi, c.prefix, c.pos); print(c.solver.assertions()); raise core.Abort()
         w=n.w
         v=c.solver.model().eval(ir.low(n,w), model_completion=True).as_signed_long()
         if c.branch(ir.low(n,w)==z3.BitVecVal(v,w)):
@@ -108,6 +109,9 @@ def call(f,*a,**k):
         anysym = any(is_sym(x) for x in a)
         if f.__name__=='pack' and anysym: return struct_pack(selfobj,*a)
         if f.__name__=='unpack' and anysym: return struct_unpack(selfobj,*a)
+        if f.__name__=='unpack_from' and isinstance(a[0],SBytes):
+            off=a[1] if len(a)>1 else k.get('offset',0)
+            return struct_unpack(selfobj, SBytes(a[0].b[off:off+selfobj.size]))
     if f is bytes and a and isinstance(a[0],SBytes): return SBytes(a[0].b)
     if f is bytes and a and isinstance(a[0],(list,tuple)) and any(is_sym(x) for x in a[0]): return SBytes(a[0])
     if f is len and a and isinstance(a[0],(SBytes,)): return len(a[0].b)
@@ -143,3 +147,4 @@ def mod(l,r):
 def not_(x):
     if isinstance(x,core.SBool): return core.SBool(z3.Not(x.e))
     return not x
+SInt.__hash__=lambda s: hash(concretize(s))
